@@ -121,6 +121,8 @@ pub fn get_key_value_safe(key: &String, sender: &Sender<String>, db: &Database) 
  * All get keys functions must call this function and parse the result from it
  */
 pub fn get_key_value_new(key: &String, db: &Database) -> Response {
+    #[cfg(nundb_verif)]
+    crate::verif_hooks::yield_point("map.read");
     let db = db.map.read().unwrap();
     let (value, version) = match db.get(&key.to_string()) {
         Some(value) => (value.to_string(), value.version),
@@ -138,6 +140,8 @@ pub fn remove_key(key: &String, db: &Database) -> Response {
 }
 
 pub fn is_valid_token(token: &String, db: &Database) -> bool {
+    #[cfg(nundb_verif)]
+    crate::verif_hooks::yield_point("map.read");
     let db = db.map.read().unwrap();
     match db.get(&TOKEN_KEY.to_string()) {
         Some(value) => {
@@ -149,6 +153,8 @@ pub fn is_valid_token(token: &String, db: &Database) -> bool {
 }
 
 pub fn is_valid_user_token(token: &String, user_name: &String, db: &Database) -> bool {
+    #[cfg(nundb_verif)]
+    crate::verif_hooks::yield_point("map.read");
     let db = db.map.read().unwrap();
     match db.get(&format!("$$user_{}", user_name)) {
         Some(value) => {
@@ -203,10 +209,14 @@ pub fn apply_change_to_db_try_fix_conflicts(
 }
 
 pub fn unwatch_key(key: &String, sender: &Sender<String>, db: &Database) -> Response {
+    #[cfg(nundb_verif)]
+    crate::verif_hooks::yield_point("watchers.read");
     let mut senders = get_senders(&key, &db.watchers);
     log::debug!("Senders before unwatch {:?}", senders.len());
     senders.retain(|x| !x.same_receiver(&sender));
     log::debug!("Senders after unwatch {:?}", senders.len());
+    #[cfg(nundb_verif)]
+    crate::verif_hooks::yield_point("watchers.write");
     let mut watchers = db.watchers.map.write().expect("db.watchers.map.lock");
     watchers.insert(key.clone(), senders);
     Response::Ok {}
@@ -218,6 +228,8 @@ pub fn watch_key(key: &String, sender: &Sender<String>, db: &Database) -> Respon
 
 pub fn unwatch_all(sender: &Sender<String>, db: &Database) -> Response {
     log::debug!("Will unwatch_all");
+    #[cfg(nundb_verif)]
+    crate::verif_hooks::yield_point("watchers.write");
     let watchers = db
         .watchers
         .map
